@@ -402,6 +402,20 @@ F("update_all_via_public_update", [(DB, "return self._update_helper(True, TagQue
                                     "return self.update(TagQuery().noop(), time=time, measurement=measurement, tags=tags, fields=fields, unset_fields=unset_fields, unset_tags=unset_tags)", 0)],
   ["C15", "C13", "C12"], ["C03", "C01", "C10"])
 
+# ---- round 6: caches, convenience validation, robustness shortcuts
+F("facade_validates_tag_keys_first", [(MS, "        return self._db.get_tag_values(tag_keys, self._name)\n",
+                                       "        if not all((isinstance(i, str) for i in tag_keys)):\n            raise ValueError('tag_keys must be strings')\n        return self._db.get_tag_values(tag_keys, self._name)\n", 0)],
+  ["C10", "C07", "C01"])
+F("closed_handle_iterates_empty", [(ST, "        self._handle.seek(0)\n        return csv.reader(self._handle, **self.kwargs)\n",
+                                    "        if self._handle.closed:\n            return iter(())\n        self._handle.seek(0)\n        return csv.reader(self._handle, **self.kwargs)\n", 0)],
+  ["C13", "C07", "C01"])
+F("compound_init_rewrites_hashval", [(QR, "        self.operator = operator\n        self._hash = hashval\n",
+                                      "        self.operator = operator\n        if query2 is not None and hashval:\n            hashval = (hashval[0], frozenset((h for h in hashval[1] if h)))\n        self._hash = hashval\n", 0)],
+  ["C17", "C09"])
+F("remove_loop_pads_rows", [(DB, "            for i, item in enumerate(self._storage):\n                if j == len(index_rst._items) or i not in index_rst._items:\n                    self._storage.append([item], temporary=True)",
+                             "            for i, item in enumerate(map(list, self._storage)):\n                if j == len(index_rst._items) or i not in index_rst._items:\n                    self._storage.append([item], temporary=True)", 0)],
+  ["C02", "C03", "C04", "C05", "C01", "C07"], ["C06", "C10", "C15", "C12"])
+
 # ----------------------------------------------------------------- property dependencies
 # A breach of a discipline is reported under every property it is a necessary condition of
 # (e.g. a stale-but-valid index breaks C06 and therefore also the index-served answers of C01/C07;
